@@ -37,6 +37,8 @@ CLAIMS.update({
                 design="DESIGN.md section 5 C18"),
     "C11": dict(technique="static analysis: absorption-shape, loop-range/offset term matching modulo normalisation, ordering-by-dominance (advance-before-classify, refill order), guard-relation and constant (mask = 2^bitlen(p)-1) rules over MIR",
                 design="DESIGN.md section 5 C11"),
+    "C14": dict(technique="static analysis: structural extraction of the rayon fold/map/reduce pipeline (identities are zero vectors, op is element-wise field addition), sibling agreement with the serial gadget and serial constructors, who-may-call rayon, captured-state write check over MIR (feature multithreaded)",
+                design="DESIGN.md section 5 C14"),
     "C19": dict(technique="static analysis: guard-relation/dominance, decision-table and sibling-agreement (shared layout expression) rules over MIR",
                 design="DESIGN.md section 5 C19"),
     "C20": dict(technique="static analysis: predicate-shape extraction (guard relations, quantifier form, closure bodies) and who-may-construct over MIR",
